@@ -67,6 +67,8 @@ def plans(draw, sers=SERS, algs=None, encs=None, max_recipients=4, allow_zip=Tru
     ser = draw(st.sampled_from(sers))
     n = 1 if ser != "general" else draw(st.sampled_from([1, 1, 2, 2, 3, 4][: 2 + max_recipients]))
     first = draw(st.sampled_from(algs))
+    if n > 1 and not [a for a in algs if a not in rjwe.DIRECT]:
+        n = 1       # only direct modes to choose from: a single recipient
     if n > 1:
         pool = [a for a in algs if a not in rjwe.DIRECT]
         if first in rjwe.DIRECT:
